@@ -241,7 +241,10 @@ def impl(case):
         if case.get('twice'):
             # an earlier result of the same constructor call is modified in place (charges switched off, tensors rescaled,
             # orthonormalised) before the call that is judged: constructors must not hand out shared state
-            H0 = build(case)[0]
+            try:
+                H0 = build(case)[0]
+            except Exception:
+                H0 = None        # e.g. the excluded zero operator: the judged call below raises again and is handled there
             try:
                 H0.zero_qnumbers()
                 for a in H0.A:
